@@ -1,8 +1,8 @@
 #!/usr/bin/env bash
 # run verify_seed.sh for every delivered seed, choosing the checks by the files the patch touches
 cd /verif
-for d in /tmp/seed3-C*/out/[AB]; do
-  id=$(echo $d | sed 's|/tmp/seed3-\(C[0-9]*\)/out/.*|\1|'); v=$(basename $d)
+for d in /tmp/seed4-C*/out/[AB]; do
+  id=$(echo $d | sed 's|/tmp/seed4-\(C[0-9]*\)/out/.*|\1|'); v=$(basename $d)
   [ -f $d/patch.diff ] || continue
   files=$(grep '^+++ b/' $d/patch.diff | sed 's|+++ b/||')
   checks="$id"
